@@ -90,7 +90,7 @@ def run(ctx, report: Report) -> None:
                      f'for a Tag the predicates answer (special, content, navigable) = {tg}; all three must be False')
 
     # ---- R2 ----------------------------------------------------------------------------------------------
-    r2 = report.rule('C19-R2', 'every text reader is guarded by the classification', floor=226)
+    r2 = report.rule('C19-R2', 'every text reader is guarded by the classification', floor=293)
     # what each text reader does with nodes that are not content (comment, CDATA, PI, declaration, doctype), as tables on
     # abstract trees: :empty, :root and :dir() here; the two collectors and :-soup-contains below
     from .sem import dir_table, empty_table, root_table
@@ -286,7 +286,7 @@ def run(ctx, report: Report) -> None:
     descendants_table(ctx, r2)
 
     # ---- R6 (the whole pipeline by interpretation, bounded) --------------------------------------------------------------
-    r6 = report.rule('C19-R6', 'text pseudo-classes on a tree with split text, comments, CDATA, an iframe and text-less elements (whole pipeline; bounded)', floor=5)
+    r6 = report.rule('C19-R6', 'text pseudo-classes on a tree with split text, comments, CDATA, an iframe and text-less elements (whole pipeline; bounded)', floor=50)
     from .e2ematch import text_table
     text_table(ctx, r6)
 
